@@ -2,7 +2,7 @@
 From Coq Require Import ZArith List Bool String.
 From TV Require Import Base.Prelude Base.C18_Lib
      Model.C18_Cache Spec.C18_CacheSpec Model.C18_Conc Model.C18_LockSteps Model.C18_Rsa Gen.Locks
-     Proofs.C18_CacheWit Proofs.C18_Conc Proofs.C18_Locks Proofs.C18_Rsa.
+     Proofs.C18_Cache Proofs.C18_CacheWit Proofs.C18_Conc Proofs.C18_Locks Proofs.C18_Rsa Proofs.C18_Lin.
 Import ListNotations.
 Open Scope Z_scope.
 
@@ -28,6 +28,35 @@ Proof. exact size_bound_refuted. Qed.
 Theorem cache_no_internal_error_refuted : exists n maxAge h,
   1 <= n /\ monotone h /\ all_documented h (outcomes n maxAge h) = false.
 Proof. exact no_internal_error_refuted. Qed.
+
+(* What holds: the same three statements for every history whose stored IDs are pairwise
+   distinct (any length, any monotone clock, any maxEntries >= 1, any maxAge). *)
+Theorem cache_refines_spec_partial : forall n maxAge h,
+  1 <= n -> monotone h -> distinct_puts h -> outcomes n maxAge h = spec_outcomes n maxAge h.
+Proof. exact cache_refines_spec_distinct. Qed.
+
+Theorem cache_size_bound_partial : forall n maxAge h,
+  1 <= n -> monotone h -> distinct_puts h -> zlen (c_dict (final_cache n maxAge h)) <= n - 1.
+Proof. exact cache_size_bound_distinct. Qed.
+
+Theorem cache_no_internal_error_partial : forall n maxAge h,
+  1 <= n -> monotone h -> distinct_puts h -> all_documented h (outcomes n maxAge h) = true.
+Proof. exact cache_no_internal_error_distinct. Qed.
+
+(* a history meeting the hypotheses that exercises eviction, expiry and invalidation *)
+Definition example_history : history :=
+  [(0, Put 1 10); (1, Put 2 11); (2, Get 1); (2, Put 3 12); (3, Get 1); (3, SetValid 12 false);
+   (4, Get 3); (4, SetValid 12 true); (5, Get 3); (8, Get 2); (8, Purge); (9, Put 4 13); (20, Get 4)].
+Example example_history_ok :
+  monotone example_history /\ distinct_puts example_history /\
+  outcomes 3 6 example_history =
+  [ORet None; ORet None; ORet (Some 10); ORet None; OExc KeyError; ORet None;
+   OExc KeyError; ORet None; ORet (Some 12); OExc KeyError; ORet None; ORet None; OExc KeyError].
+Proof.
+  split; [cbn; repeat split; discriminate|]. split; [|vm_compute; reflexivity].
+  unfold distinct_puts. cbn [example_history put_ids].
+  repeat (constructor; [cbn [In]; intros H; repeat (destruct H as [H|H]; [discriminate|]); exact H|]). constructor.
+Qed.
 
 (* ======== concurrency: generic ============================================== *)
 (* Any number of threads, any programs that touch shared variables only between acquire and
@@ -77,6 +106,52 @@ Theorem extracted_methods_complete :
    ("VerifierDB", "__contains__"); ("VerifierDB", "check"); ("VerifierDB", "keys");
    ("Python_RSAKey", "_rawPrivateKeyOp")]%string.
 Proof. exact extracted_methods_present. Qed.
+
+(* ======== from steps to whole calls ============================================= *)
+(* Object-level serializability.  `sem` is ANY small-step reading of the method bodies; all
+   that is asked of it is (1) lock discipline and a single critical section per call (decided
+   on shapes), (2) a call executed alone does what the sequential model `mstep` says.  Then
+   any number of concurrent calls, under any schedule, leave the object in the state and
+   return the results that the sequential model yields for some order of the calls, and
+   every call has returned. *)
+Theorem object_serializable : forall (Lo V W Call R : Type) (mstep : W -> Call -> W * R)
+    (sem : Call -> list (step Lo V)) (absS : store V -> W) (res : Lo -> option R) (lo0 : Lo)
+    (calls : list Call),
+  (forall call, In call calls -> well_locked (sem call) = true) ->
+  (forall call, In call calls -> (count_acq (sem call) <= 1)%nat) ->
+  (forall call, In call calls -> sem call <> []) ->
+  (forall call st, In call calls ->
+     absS (fst (run_all st lo0 (sem call))) = fst (mstep (absS st) call) /\
+     res (snd (run_all st lo0 (sem call))) = Some (snd (mstep (absS st) call))) ->
+  forall st0 sched cf,
+  run_sched (lin_config Lo V Call sem lo0 calls st0) sched = Some cf -> terminal cf ->
+  exists order,
+    absS (g_store cf) = fst (mserial W Call R mstep calls order (absS st0, map (fun _ => None) calls)) /\
+    map (fun t => res (t_lo t)) (g_threads cf) =
+      snd (mserial W Call R mstep calls order (absS st0, map (fun _ => None) calls)) /\
+    Forall (fun r => r <> None) (snd (mserial W Call R mstep calls order (absS st0, map (fun _ => None) calls))).
+Proof. exact object_serializable_all. Qed.
+
+(* SessionCache: the access pattern is the one extracted from /repo (Gen/Locks.v), the
+   sequential behaviour of a call is Model.C18_Cache.apply at the clock value the call reads
+   inside its critical section (clock = previous reading + a per-call advance).  Every
+   interleaving of any number of __getitem__/__setitem__ calls equals the sequential model
+   for some order of the calls.  (With advances >= 0 and pairwise distinct stored IDs that
+   sequential run is covered by cache_refines_spec_partial.) *)
+Theorem cache_linearizable : forall (Lo V : Type) (sem : ccall -> list (step Lo V))
+    (absS : store V -> world * Z) (res : Lo -> option outcome) (lo0 : Lo) (calls : list ccall),
+  (forall call, In call calls -> cache_method (fst call) = Some (map (@shape_of Lo V) (sem call))) ->
+  (forall call st, In call calls ->
+     absS (fst (run_all st lo0 (sem call))) = fst (cache_mstep (absS st) call) /\
+     res (snd (run_all st lo0 (sem call))) = Some (snd (cache_mstep (absS st) call))) ->
+  forall st0 sched cf,
+  run_sched (lin_config Lo V ccall sem lo0 calls st0) sched = Some cf -> terminal cf ->
+  exists order,
+    let m := mserial (world * Z) ccall outcome cache_mstep calls order (absS st0, map (fun _ => None) calls) in
+    absS (g_store cf) = fst m /\
+    map (fun t => res (t_lo t)) (g_threads cf) = snd m /\
+    Forall (fun r => r <> None) (snd m).
+Proof. exact cache_linearizable_all. Qed.
 
 (* ======== RSA blinding ======================================================== *)
 Theorem blinding_invariant : forall n e b u, 1 < n ->
